@@ -113,3 +113,16 @@ pub fn authorisers(recs: &[Rec]) -> Vec<ScAddress> {
     }
     v
 }
+
+/// one authorisation-tree node built by hand (when the call cannot be recorded because it fails)
+pub fn node(env: &Env, contract: &Address, func: &str, args: &soroban_sdk::Vec<Val>, subs: Vec<SorobanAuthorizedInvocation>) -> SorobanAuthorizedInvocation {
+    let a: Vec<ScVal> = args.iter().map(|v| ScVal::try_from_val(env, &v).unwrap()).collect();
+    SorobanAuthorizedInvocation {
+        function: SorobanAuthorizedFunction::ContractFn(InvokeContractArgs {
+            contract_address: ScAddress::try_from(contract).unwrap(),
+            function_name: func.try_into().unwrap(),
+            args: a.try_into().unwrap(),
+        }),
+        sub_invocations: subs.try_into().unwrap(),
+    }
+}
